@@ -1,14 +1,31 @@
 """C22 -- errno is passed to and from C calls and is thread-local (engine E3).
 
-Every pair (and triple) of short thread programs over an alphabet of errno
-operations is run under the baton scheduler, in EVERY interleaving at operation
-granularity plus a switch point inside every callback body (other threads then
-run between cffi's save_errno at callback entry and restore_errno at exit).
-Oracle: each thread observes exactly what a sequential per-thread model predicts.
+Every pair (and triple, and a family of quadruples) of short thread programs over
+an alphabet of errno operations is run under the baton scheduler, in EVERY
+interleaving at operation granularity plus switch points inside every callback
+body (other threads then run between cffi's save_errno at callback entry and
+restore_errno at exit).  Oracle: each thread observes exactly what a sequential
+per-thread model predicts.
+
+Audit-round extension: callback bodies are PROGRAMS over the same operations
+(nested C calls, global fetches, second-level callbacks, raising with or without
+`onerror`), there are steps that dirty the real C errno between and inside
+operations (a failing syscall as an operation, inside `__index__` of an argument,
+inside `sys.stderr.write` while cffi prints a callback's traceback), ffi.errno is
+read and assigned through four front ends (compiled ffi, in-line FFI = api.py,
+out-of-line ffi, _cffi_backend.get_errno/set_errno) with 0 / negative / INT_MAX /
+INT_MIN values and rejected values, callbacks run in threads created by C,
+callback cdata are called directly from Python, the global-variable paths are
+complete (read/write/addressof x API/in-line/out-of-line, assignment to the
+`errno` global), and a legacy ffi.verify() module is one more call path.  The
+single-thread part of these shapes is enumerated exhaustively in "chains" (many
+programs run one after the other in one fresh thread, the model carrying the
+state over), the multi-thread part under the scheduler as before.
 """
 import itertools
 import os
 import sys
+import threading
 
 from .. import build, pool, sched
 from ..build import InfraError
@@ -17,69 +34,130 @@ ID = "C22"
 LEVEL = "model_checking"
 META = dict(
     engine="E3-sched", level="model_checking",
-    technique="stateless model checking: all interleavings (no preemption bound) of 2-3 real threads running every "
+    technique="stateless model checking: all interleavings (no preemption bound) of 2-4 real threads running every "
               "short program over an errno-operation alphabet, with switch points between operations and inside "
-              "callback bodies; oracle = sequential per-thread model",
-    text="Operations: assign ffi.errno, read ffi.errno, call a C function that returns the errno it saw and sets a new "
-         "one through the API-mode lib, through libffi (ffi.addressof), through an in-line ABI dlopen and an "
-         "out-of-line ABI lib, call a C helper that invokes an ffi.callback / extern \"Python\" function in the middle "
-         "(whose body is a scheduling point and may assign ffi.errno), and read a global that is really `errno` through "
-         "the API-mode address-fetch function.  All programs of length <= 2 (3 threads: 1-2) per thread, all "
-         "combinations, all schedules.",
+              "callback bodies; plus exhaustive single-thread chains over the full operation / callback-body "
+              "alphabet; oracle = sequential per-thread model (one errno slot per thread)",
+    text="Operations: assign ffi.errno, read ffi.errno (through the compiled ffi, an in-line cffi.FFI() = api.py, an "
+         "out-of-line ffi and _cffi_backend.set_errno/get_errno; values 0, negative, INT_MAX, INT_MIN, True, -1 and "
+         "rejected values that must leave errno unchanged), call a C function that returns the errno it saw and sets a "
+         "new one through the API-mode lib, through libffi (ffi.addressof), through an in-line ABI dlopen, an "
+         "out-of-line ABI lib and a legacy ffi.verify() module (also with an argument whose __index__ fails a "
+         "syscall, and with a > 512-byte list argument = malloc path), call a C helper that invokes an ffi.callback / "
+         "extern \"Python\" function in the middle whose body is itself a program (reads, assignments, nested C calls "
+         "through each path, fetch of the `errno` global, a second-level callback, raise with the traceback printed "
+         "through a sys.stderr that fails a syscall, raise with an onerror handler that assigns ffi.errno) and a "
+         "scheduling point, the same callback called directly from Python and from a thread created by C "
+         "(pthread_create; the calling thread's errno must not change), a failing syscall as an operation, read / "
+         "write / addressof of plain globals in API / in-line / out-of-line mode and read / write of a global that is "
+         "really `errno`.  Scheduler families (counters pairs / triples / audit-pairs / quadruples): all programs of "
+         "length <= 2 over the first 17 operations (3 threads: length 1), every pair of single operations of the whole "
+         "43-operation alphabet and all 3-operation pairs over a 10+10 subset of it (audit-pairs; quick: 8 x 8 single "
+         "operations), 4 threads with one operation each; all combinations, all schedules; a bystander thread (the "
+         "controller) keeps its own errno throughout.  Chain families (counters chain:op-singles, chain:op-pairs, "
+         "chain:callback-bodies, chain:callback-depth3, chain:front-ends-values; identical in both tiers): every "
+         "operation and every ordered pair of operations, every callback body of length <= 2 for every callback "
+         "mechanism x {via C helper, direct call, C-created thread}, front end x front end x value.  "
+         "Thorough is expected to take about 6 minutes on the idle machine.",
     note="switch points are operation boundaries and callback bodies (other threads are parked on semaphores, so "
-         "releasing the GIL inside a C call cannot switch elsewhere); real OS threads, so thread-local storage is real")
+         "releasing the GIL inside a C call cannot switch elsewhere); real OS threads, so thread-local storage is real; "
+         "bodies run in a C-created thread have no switch point (the thread is unknown to the scheduler; its creator "
+         "waits in pthread_join)")
 
 C_SRC = r"""
 #include <errno.h>
-static int seterr(int w) { int seen = errno; errno = w; return seen; }
-static int helper(int (*cb)(int), int w1, int *seen_entry, int *seen_after)
+#include <pthread.h>
+int seterr(int w) { int seen = errno; errno = w; return seen; }
+int seterr_a(int *a, int w) { int seen = errno; (void)a; errno = w; return seen; }
+int helper(int (*cb)(int), int tok, int w1, int *seen_entry, int *seen_after)
 {
     *seen_entry = errno;
     errno = w1;
-    cb(w1);
+    cb(tok);
     *seen_after = errno;
     return 0;
 }
-static int xp_cb(int);
-static int helper_xp(int w1, int *seen_entry, int *seen_after)
+struct c22_ct { int (*cb)(int); int tok, w1; int *e, *a; };
+static void *c22_ct_main(void *p)
 {
-    return helper(xp_cb, w1, seen_entry, seen_after);
+    struct c22_ct *c = (struct c22_ct *)p;
+    errno = 77;                      /* a new OS thread: the callback must see w1, the helper 77 */
+    helper(c->cb, c->tok, c->w1, c->e, c->a);
+    return 0;
+}
+/* runs helper() in a thread made by C; returns the errno the CALLER had at entry and leaves it in place */
+int in_cthread(int (*cb)(int), int tok, int w1, int *seen_entry, int *seen_after)
+{
+    int e0 = errno;
+    struct c22_ct c;
+    pthread_t t;
+    c.cb = cb; c.tok = tok; c.w1 = w1; c.e = seen_entry; c.a = seen_after;
+    if (pthread_create(&t, 0, c22_ct_main, &c) != 0) {
+        *seen_entry = -12345;
+    }
+    else {
+        pthread_join(t, 0);
+    }
+    errno = e0;
+    return e0;
+}
+#ifdef C22_API
+static int xp_cb(int);
+static int xp_cb_oe(int);
+static int helper_xp(int oe, int tok, int w1, int *seen_entry, int *seen_after)
+{
+    return helper(oe ? xp_cb_oe : xp_cb, tok, w1, seen_entry, seen_after);
+}
+static int in_cthread_xp(int oe, int tok, int w1, int *seen_entry, int *seen_after)
+{
+    return in_cthread(oe ? xp_cb_oe : xp_cb, tok, w1, seen_entry, seen_after);
 }
 #define cerrno errno
-int counter = 5;
 static int xp_unattached(int);
 static int helper_xpu(int w1, int *seen_entry, int *seen_after)
 {
-    return helper(xp_unattached, w1, seen_entry, seen_after);
+    return helper(xp_unattached, 0, w1, seen_entry, seen_after);
 }
+#endif
+int counter = 5;
 """
-CDEF = """
+CDEF_ABI = """
 int seterr(int);
-int helper(int (*cb)(int), int, int *, int *);
-int helper_xp(int, int *, int *);
+int seterr_a(int *, int);
+int helper(int (*cb)(int), int, int, int *, int *);
+int in_cthread(int (*cb)(int), int, int, int *, int *);
+extern int counter;
+"""
+CDEF = CDEF_ABI + """
+int helper_xp(int, int, int, int *, int *);
+int in_cthread_xp(int, int, int, int *, int *);
 extern "Python" int xp_cb(int);
+extern "Python" int xp_cb_oe(int);           /* registered with onerror= */
 extern "Python" int xp_unattached(int);      /* never given a Python function */
 int helper_xpu(int, int *, int *);
 extern int cerrno;
-extern int counter;
 """
-CDEF_ABI = "int seterr(int); int helper(int (*cb)(int), int, int *, int *); extern int counter;"
 
 _W = {}
+INT_MAX = 2 ** 31 - 1
+INT_MIN = -2 ** 31
+BAD = {"2**31": 2 ** 31, "-2**31-1": -2 ** 31 - 1, "2**70": 2 ** 70, "str": "x", "float": 1.5, "none": None}
+FRONT_ENDS = ("api", "inline", "ool", "backend")
+C_PATHS = ("api", "ffi", "abi", "ool", "verify")
+CB_MECHS = ("callback", "extern", "abi-callback", "ool-callback", "verify-callback")
 
 
 def setup():
-    """Build the API module once; open its .so in in-line and out-of-line ABI mode too."""
+    """Build the API module once; open its .so in in-line and out-of-line ABI mode too; build a verify() module."""
     import importlib.util
+    import warnings
     import cffi
     d = os.path.join(build.scratch_shared(), "c22")
     os.makedirs(d, exist_ok=True)
     name = "_c22_api"
     ffi = cffi.FFI()
     ffi.cdef(CDEF)
-    # seterr/helper must be exported for dlopen(): drop 'static' for them via a second definition
-    src = C_SRC.replace("static int seterr", "int seterr").replace("static int helper(", "int helper(")
-    ffi.set_source(name, src)
+    ffi.set_source(name, "#define C22_API 1\n" + C_SRC, libraries=["pthread"])
     so = ffi.compile(tmpdir=d, verbose=False)
     spec = importlib.util.spec_from_file_location(name, so)
     mod = importlib.util.module_from_spec(spec)
@@ -96,123 +174,403 @@ def setup():
     m3 = importlib.util.module_from_spec(spec)
     spec.loader.exec_module(m3)
     lib3 = m3.ffi.dlopen(so)
-    _W.update(ffi=mod.ffi, lib=mod.lib, ffi2=ffi2, lib2=lib2, ffi3=m3.ffi, lib3=lib3,
-              seterr_ffi=mod.ffi.addressof(mod.lib, "seterr"))
+    # legacy verify() module: vengine_cpy has its own wrapper template and reaches restore/save_errno
+    # through the _cffi_exports table
+    ffiv = cffi.FFI()
+    ffiv.cdef(CDEF_ABI)
+    dv = os.path.join(d, "verify")
+    os.makedirs(dv, exist_ok=True)
+    saved = os.dup(2)
+    devnull = os.open(os.devnull, os.O_WRONLY)
+    sys.stderr.flush()
+    os.dup2(devnull, 2)               # distutils chatter
+    try:
+        with warnings.catch_warnings():
+            warnings.simplefilter("ignore")
+            libv = ffiv.verify(C_SRC, tmpdir=dv, modulename="_c22_verify", libraries=["pthread"])
+    finally:
+        os.dup2(saved, 2)
+        os.close(saved)
+        os.close(devnull)
+    if type(libv.seterr).__name__ != "builtin_function_or_method":
+        raise InfraError("ffi.verify() did not use the CPython extension engine")
+    _W.update(ffi=mod.ffi, lib=mod.lib, ffi2=ffi2, lib2=lib2, ffi3=m3.ffi, lib3=lib3, ffiv=ffiv, libv=libv,
+              seterr_ffi=mod.ffi.addressof(mod.lib, "seterr"), seterr_a_ffi=mod.ffi.addressof(mod.lib, "seterr_a"))
 
 
-# operations: ('S', v) ('G',) ('C', path, w) ('CB', mech, w1, x_or_None) ('V',)
+# ---------------------------------------------------------------------------------------------
+# operations (top level and inside callback bodies):
+#   ('S', v[, fe])  ('G'[, fe])  ('SX', badkey, fe)  ('D',)
+#   ('C', path, w[, argkind])     argkind: 'dirtyarg' | 'biglist'
+#   ('V',)  ('VW', x)  ('GV', access, mode)  ('CBU', w)
+#   ('CB', mech, w1, body)  ('CBD', mech, body)  ('CBT', mech, w1, body)
+# only as the LAST element of a body:
+#   ('RAISE',)                 the body raises; cffi prints the traceback (through sys.stderr = _DirtyErr)
+#   ('RAISE', 'onerror', hb)   the body raises; the onerror handler runs the body program hb
+# ---------------------------------------------------------------------------------------------
 def alphabet(tid):
     b = 100 * (tid + 1)
+    rr = (("G",), ("G",))
     return [
         ("S", b + 1), ("G",),
         ("C", "api", b + 2), ("C", "ffi", b + 3), ("C", "abi", b + 4), ("C", "ool", b + 5),
-        ("CB", "callback", b + 6, None), ("CB", "callback", b + 7, b + 8),
-        ("CB", "extern", b + 9, b + 10), ("CB", "abi-callback", b + 11, b + 12),
+        ("CB", "callback", b + 6, rr), ("CB", "callback", b + 7, (("G",), ("S", b + 8))),
+        ("CB", "extern", b + 9, (("G",), ("S", b + 10))), ("CB", "abi-callback", b + 11, (("G",), ("S", b + 12))),
         ("V",),
         # an extern "Python" function that no Python code was attached to (cffi reports it and returns 0)
         ("CBU", b + 13),
         # plain global variables of dlopen()ed libraries: read / write / addressof must not disturb errno
         ("GV", "rd", "ool"), ("GV", "wr", "ool"), ("GV", "addr", "ool"), ("GV", "rd", "abi"), ("GV", "rd", "api"),
+        # ---- index 17...: audit-round operations -------------------------------------------------
+        ("S", -(b + 1), "inline"),                                             # 17
+        ("G", "backend"),                                                      # 18
+        ("S", INT_MAX - tid, "backend"),                                       # 19
+        ("G", "inline"),                                                       # 20
+        ("D",),                                                                # 21
+        ("C", "api", b + 21, "dirtyarg"),                                      # 22
+        ("C", "abi", b + 22, "biglist"),                                       # 23
+        ("C", "verify", b + 23),                                               # 24
+        ("CB", "callback", b + 24, (("C", "api", b + 25),)),                   # 25 nested C call
+        ("CB", "extern", b + 26, (("V",), ("C", "ffi", b + 27))),              # 26 nested fetch + libffi call
+        ("CB", "callback", b + 28, (("G",), ("RAISE",))),                      # 27 raising body
+        ("CB", "extern", b + 29, (("RAISE", "onerror", (("S", b + 30),)),)),   # 28 onerror assigns
+        ("CB", "abi-callback", b + 31, (("CB", "callback", b + 32, (("G",), ("S", b + 33))),)),   # 29 cb in cb
+        ("CBD", "callback", (("G",), ("S", b + 34))),                          # 30 direct call of the cdata
+        ("CBT", "callback", b + 35, (("G",), ("S", b + 36))),                  # 31 in a thread made by C
+        ("CBT", "extern", b + 37, (("C", "api", b + 38),)),                    # 32
+        ("VW", b + 39),                                                        # 33 lib.cerrno = x
+        ("GV", "wr", "api"), ("GV", "addr", "api"), ("GV", "wr", "abi"), ("GV", "addr", "abi"),   # 34-37
+        ("SX", "2**31", "api"),                                                # 38
+        ("CB", "callback", b + 40, (("D",), ("G",))),                          # 39 dirty step inside a body
+        ("S", 0, "ool"),                                                       # 40
+        ("S", INT_MIN + tid, "api"),                                           # 41
+        ("CB", "verify-callback", b + 41, (("G",), ("S", -(b + 42), "backend"))),   # 42
     ]
 
 
+N_OLD = 17
+
+
+def values(tid):
+    b = 100 * (tid + 1)
+    return [b + 1, 0, -(b + 1), INT_MAX - tid, INT_MIN + tid, -1, True]
+
+
+def body_alphabet(tid, nested=True):
+    """Elements of callback bodies (the last two only make sense as the last element)."""
+    b = 100 * (tid + 1)
+    al = [
+        ("G",), ("G", "inline"), ("S", b + 50), ("S", -(b + 51), "inline"), ("S", INT_MAX - tid, "backend"),
+        ("C", "api", b + 52), ("C", "ffi", b + 53), ("C", "abi", b + 54), ("C", "ool", b + 55),
+        ("C", "verify", b + 56), ("C", "api", b + 57, "dirtyarg"), ("C", "ffi", b + 58, "biglist"),
+        ("V",), ("VW", b + 59), ("D",), ("SX", "2**70", "inline"), ("GV", "rd", "api"),
+    ]
+    if nested:
+        al += [
+            ("CB", "callback", b + 60, (("G",), ("S", b + 61))),
+            ("CB", "extern", b + 62, (("C", "api", b + 63),)),
+            ("CB", "abi-callback", b + 64, (("G",), ("RAISE",))),
+            ("CBD", "callback", (("S", b + 65),)),
+        ]
+    al += [
+        ("RAISE",), ("RAISE", "onerror", ()), ("RAISE", "onerror", (("S", b + 66),)),
+        ("RAISE", "onerror", (("C", "api", b + 67), ("G",))),
+    ]
+    return al
+
+
+def bodies(tid, maxlen, nested=True):
+    al = body_alphabet(tid, nested)
+    out = []
+    for n in range(1, maxlen + 1):
+        for t in itertools.product(al, repeat=n):
+            if any(op[0] == "RAISE" for op in t[:-1]):
+                continue                    # nothing runs after a raise
+            out.append(t)
+    return out
+
+
 def model(prog, start=0):
-    """Sequential model of one thread: list of expected observations."""
-    py = start
+    """Sequential model of one thread: list of expected observations.  `py` is the thread's one errno slot."""
     obs = []
-    for op in prog:
-        if op[0] == "S":
-            py = op[1]
-        elif op[0] == "G":
-            obs.append(("G", py))
-        elif op[0] == "C":
-            obs.append(("C", py))
-            py = op[2]
-        elif op[0] == "CB":
-            after = op[3] if op[3] is not None else op[2]
-            obs.append(("CB", py, op[2], after))      # seen at entry, errno seen inside callback, seen after
-            py = after
-        elif op[0] == "V":
-            obs.append(("V", py))
-        elif op[0] == "CBU":
-            obs.append(("CBU", py, op[1]))      # errno seen at entry; errno after the (empty) extern call
-            py = op[1]
-        elif op[0] == "GV":
-            obs.append(("GV", 5 if op[1] == "rd" else 0))
+    py = _model_ops(prog, start, obs)
     obs.append(("END", py))
     return obs
 
 
+def _model_ops(ops, py, obs):
+    for op in ops:
+        k = op[0]
+        if k == "S":
+            py = int(op[1])
+        elif k == "G":
+            obs.append(("G", py))
+        elif k == "SX":
+            obs.append(("SX", "raised"))                 # and the slot keeps its value
+        elif k == "C":
+            obs.append(("C", py))
+            py = op[2]
+        elif k == "CB":
+            entry = py                                   # what the C helper sees at entry
+            py = _model_ops(op[3], op[2], obs)           # the body starts from the errno C had set: w1
+            obs.append(("CB", entry, py))                # ... and C sees the body's final value afterwards
+        elif k == "CBD":
+            py = _model_ops(op[2], py, obs)
+            obs.append(("CBD",))
+        elif k == "CBT":
+            after = _model_ops(op[3], op[2], obs)        # runs in another OS thread
+            obs.append(("CBT", py, 77, after))           # the caller's errno is not touched
+        elif k == "V":
+            obs.append(("V", py))
+        elif k == "CBU":
+            obs.append(("CBU", py, op[1]))      # errno seen at entry; errno after the (empty) extern call
+            py = op[1]
+        elif k == "GV":
+            obs.append(("GV", 5 if op[1] == "rd" else 0))
+        elif k == "RAISE":
+            if len(op) > 1:
+                py = _model_ops(op[2], py, obs)
+            return py
+        elif k in ("D", "VW"):
+            pass                                         # only the real errno changes, never the slot
+        else:
+            raise InfraError("unknown op %r" % (op,))
+    return py
+
+
+def nontrivial(prog):
+    """Does the program contain an operation that observes or moves errno (for the evidence counters)?"""
+    return any(op[0] not in ("D", "GV") for op in prog)
+
+
+# ---------------------------------------------------------------------------------------------
+# execution
+# ---------------------------------------------------------------------------------------------
+TOKMUL = 100000
+_ENVS = {}
+
+
+def _dirty():
+    """A failing syscall: the thread's real C errno becomes ENOENT."""
+    try:
+        os.stat("/nonexistent-c22/x")
+    except OSError:
+        pass
+
+
+class _I(object):
+    """An integer argument whose conversion fails a syscall in the middle of argument processing."""
+
+    def __init__(self, v):
+        self.v = v
+
+    def __index__(self):
+        _dirty()
+        return self.v
+    __int__ = __index__
+
+
+class _DirtyErr(object):
+    """sys.stderr of the workers: cffi prints the traceback of a raising callback here, between
+    save_errno and restore_errno of invoke_callback."""
+
+    def write(self, s):
+        _dirty()
+        return len(s)
+
+    def flush(self):
+        _dirty()
+
+
+class _Raise(Exception):
+    def __init__(self, hbody, env):
+        Exception.__init__(self, "C22 body raises")
+        self.hbody = hbody
+        self.env = env
+
+
+class Env(object):
+    """Per-thread execution context."""
+
+    def __init__(self, tid, point):
+        self.tid = tid
+        self.point = point
+        self.out = []
+        self.pending = {}
+        self.ntok = 0
+        self.cbs = {}
+        _ENVS[tid] = self
+
+    def token(self, body):
+        self.ntok += 1
+        tok = self.tid * TOKMUL + self.ntok
+        self.pending[tok] = body
+        return tok
+
+    def cb(self, mech, oe):
+        c = self.cbs.get((mech, oe))
+        if c is None:
+            f = {"callback": "ffi", "abi-callback": "ffi2", "ool-callback": "ffi3", "verify-callback": "ffiv"}[mech]
+            if oe:
+                c = _W[f].callback("int(int)", _pycb, error=-1, onerror=_onerror)
+            else:
+                c = _W[f].callback("int(int)", _pycb, error=-1)
+            self.cbs[(mech, oe)] = c
+        return c
+
+
+def _pycb(tok):
+    # runs between save_errno (entry) and restore_errno (exit) of invoke_callback / cffi_call_python
+    env = _ENVS[tok // TOKMUL]
+    body = env.pending.pop(tok)
+    try:
+        _run_body(body, env)
+    except (_Raise, sched.SchedAbort):
+        raise
+    except BaseException as e:
+        env.out.append(("EXC-in-body", repr(e)))
+    return 0
+
+
+def _onerror(exc, val, tb):
+    if isinstance(val, _Raise) and val.hbody is not None:
+        try:
+            _run_body(val.hbody, val.env)
+        except (_Raise, sched.SchedAbort):
+            raise
+        except BaseException as e:
+            val.env.out.append(("EXC-in-onerror", repr(e)))
+    return None
+
+
+def _run_body(body, env):
+    n = len(body)
+    for j, op in enumerate(body):
+        if j > 0 or n == 1:
+            env.point(("in-callback",))          # other threads run while this callback is active
+        do_op(op, env)
+
+
+def _needs_oe(body):
+    return any(op[0] == "RAISE" and len(op) > 1 for op in body)
+
+
+def _get(fe):
+    if fe == "backend":
+        import _cffi_backend
+        return _cffi_backend.get_errno()
+    return _W[{"api": "ffi", "inline": "ffi2", "ool": "ffi3"}[fe]].errno
+
+
+def _set(fe, v):
+    if fe == "backend":
+        import _cffi_backend
+        _cffi_backend.set_errno(v)
+    else:
+        _W[{"api": "ffi", "inline": "ffi2", "ool": "ffi3"}[fe]].errno = v
+
+
+def do_op(op, env):
+    W = _W
+    ffi, lib = W["ffi"], W["lib"]
+    out = env.out
+    k = op[0]
+    if k == "S":
+        _set(op[2] if len(op) > 2 else "api", op[1])
+    elif k == "G":
+        out.append(("G", _get(op[1] if len(op) > 1 else "api")))
+    elif k == "SX":
+        try:
+            _set(op[2], BAD[op[1]])
+        except (TypeError, OverflowError):
+            out.append(("SX", "raised"))
+        else:
+            out.append(("SX", "accepted"))
+    elif k == "D":
+        _dirty()
+    elif k == "C":
+        path = op[1]
+        kind = op[3] if len(op) > 3 else None
+        L = {"api": lib, "ffi": None, "abi": W["lib2"], "ool": W["lib3"], "verify": W["libv"]}[path]
+        if kind == "biglist":
+            f = W["seterr_a_ffi"] if path == "ffi" else L.seterr_a
+            # 200 ints = 800 bytes: the temporary is malloc()ed, and converting element 0 fails a syscall
+            out.append(("C", f([_I(1)] + [0] * 199, _I(op[2]))))
+        else:
+            f = W["seterr_ffi"] if path == "ffi" else L.seterr
+            out.append(("C", f(_I(op[2]) if kind == "dirtyarg" else op[2])))
+    elif k in ("CB", "CBT"):
+        mech, w1, body = op[1], op[2], op[3]
+        oe = _needs_oe(body)
+        tok = env.token(body)
+        if mech == "extern":
+            e, a = ffi.new("int *"), ffi.new("int *")
+            r = (lib.helper_xp if k == "CB" else lib.in_cthread_xp)(int(oe), tok, w1, e, a)
+        else:
+            F, L = {"callback": (ffi, lib), "abi-callback": (W["ffi2"], W["lib2"]),
+                    "ool-callback": (W["ffi3"], W["lib3"]), "verify-callback": (W["ffiv"], W["libv"])}[mech]
+            e, a = F.new("int *"), F.new("int *")
+            r = (L.helper if k == "CB" else L.in_cthread)(env.cb(mech, oe), tok, w1, e, a)
+        if tok in env.pending:
+            out.append(("callback-not-run",))
+        if k == "CB":
+            out.append(("CB", e[0], a[0]))
+        else:
+            if e[0] == -12345:
+                raise InfraError("pthread_create failed")
+            out.append(("CBT", r, e[0], a[0]))
+    elif k == "CBD":
+        mech, body = op[1], op[2]
+        oe = _needs_oe(body)
+        tok = env.token(body)
+        if mech == "extern":
+            (lib.xp_cb_oe if oe else lib.xp_cb)(tok)
+        else:
+            env.cb(mech, oe)(tok)
+        if tok in env.pending:
+            out.append(("callback-not-run",))
+        out.append(("CBD",))
+    elif k == "V":
+        out.append(("V", lib.cerrno))
+    elif k == "VW":
+        lib.cerrno = op[1]
+    elif k == "CBU":
+        e, a = ffi.new("int *"), ffi.new("int *")
+        lib.helper_xpu(op[1], e, a)
+        out.append(("CBU", e[0], a[0]))
+    elif k == "GV":
+        L = {"ool": W["lib3"], "abi": W["lib2"], "api": lib}[op[2]]
+        F = {"ool": W["ffi3"], "abi": W["ffi2"], "api": ffi}[op[2]]
+        if op[1] == "rd":
+            out.append(("GV", L.counter))
+        elif op[1] == "wr":
+            L.counter = 5
+            out.append(("GV", 0))
+        else:
+            F.addressof(L, "counter")
+            out.append(("GV", 0))
+    elif k == "RAISE":
+        raise _Raise(op[2] if len(op) > 1 else None, env)
+    else:
+        raise InfraError("unknown op %r" % (op,))
+
+
 def run_one(progs, prefix):
     s = sched.Sched(prefix, reuse_threads=False)     # thread-local storage must be fresh
-    W = _W
     results = [[] for _ in progs]
-    cbstate = {}
+    _ENVS.clear()
 
     def body(i):
-        ffi, lib = W["ffi"], W["lib"]
-        out = results[i]
-        inside = []
-
-        def pycb(w1):
-            # runs between save_errno (entry) and restore_errno (exit)
-            inside.append(ffi.errno)
-            s.point(("in-callback",))
-            x = cbstate.get(i)
-            if x is not None:
-                ffi.errno = x
-            else:
-                inside.append(ffi.errno)      # still ours after other threads ran?
-            return 0
-        cb1 = ffi.callback("int(int)", pycb)
-        cb2 = W["ffi2"].callback("int(int)", pycb)
+        env = Env(i, s.point)
+        env.out = results[i]
+        # as before the audit round: the plain callbacks exist before the first operation
+        env.cb("callback", False)
+        env.cb("abi-callback", False)
         for op in progs[i]:
             s.point(("op",))
-            k = op[0]
-            if k == "S":
-                ffi.errno = op[1]
-            elif k == "G":
-                out.append(("G", ffi.errno))
-            elif k == "C":
-                f = {"api": lib.seterr, "ffi": W["seterr_ffi"], "abi": W["lib2"].seterr,
-                     "ool": W["lib3"].seterr}[op[1]]
-                out.append(("C", f(op[2])))
-            elif k == "CB":
-                cbstate[i] = op[3]
-                del inside[:]
-                if op[1] == "extern":
-                    # extern "Python" dispatches through one global function: route by thread
-                    _XP[s.me().tid] = pycb
-                    e, a = ffi.new("int *"), ffi.new("int *")
-                    lib.helper_xp(op[2], e, a)
-                elif op[1] == "callback":
-                    e, a = ffi.new("int *"), ffi.new("int *")
-                    lib.helper(cb1, op[2], e, a)
-                else:
-                    f2 = W["ffi2"]
-                    e, a = f2.new("int *"), f2.new("int *")
-                    W["lib2"].helper(cb2, op[2], e, a)
-                ok_inside = all(v == op[2] for v in inside) and len(inside) >= 1
-                out.append(("CB", e[0], op[2] if ok_inside else ("inside", tuple(inside)), a[0]))
-            elif k == "V":
-                out.append(("V", lib.cerrno))
-            elif k == "CBU":
-                e, a = ffi.new("int *"), ffi.new("int *")
-                lib.helper_xpu(op[1], e, a)
-                out.append(("CBU", e[0], a[0]))
-            elif k == "GV":
-                L = {"ool": W["lib3"], "abi": W["lib2"], "api": lib}[op[2]]
-                F = {"ool": W["ffi3"], "abi": W["ffi2"], "api": ffi}[op[2]]
-                if op[1] == "rd":
-                    out.append(("GV", L.counter))
-                elif op[1] == "wr":
-                    L.counter = 5
-                    out.append(("GV", 0))
-                else:
-                    F.addressof(L, "counter")
-                    out.append(("GV", 0))
+            do_op(op, env)
         s.point(("end",))
-        out.append(("END", ffi.errno))
+        env.out.append(("END", _W["ffi"].errno))
     for i in range(len(progs)):
         s.spawn(body, i)
     s.results = results
@@ -220,45 +578,98 @@ def run_one(progs, prefix):
     return s
 
 
-_XP = {}
+def run_chain(chain, tid=0):
+    """Run the programs of `chain` one after the other in ONE fresh thread, without the scheduler.
+    Returns the list of observation lists (the errno slot is carried from one program to the next)."""
+    res = []
+    _ENVS.clear()
+
+    def target():
+        env = Env(tid, lambda label=None: None)
+        for p in chain:
+            env.out = out = []
+            try:
+                for op in p:
+                    do_op(op, env)
+                out.append(("END", _W["ffi"].errno))
+            except InfraError:
+                raise
+            except BaseException as e:
+                out.append(("EXC", repr(e)))
+            res.append(out)
+    err = []
+
+    def guarded():
+        try:
+            target()
+        except BaseException as e:
+            err.append(e)
+    t = threading.Thread(target=guarded)
+    t.start()
+    t.join()
+    if err:
+        raise InfraError("chain runner: %r" % (err[0],))
+    return res
+
+
+def chain_expected(chain):
+    start = 0                                    # a fresh thread
+    out = []
+    for p in chain:
+        m = model(p, start)
+        start = m[-1][1]
+        out.append(m)
+    return out
+
+
+BYSTANDER = 4242
 
 
 def install_extern():
     ffi = _W["ffi"]
-
-    @ffi.def_extern()
-    def xp_cb(w1):
-        import threading
-        t = _CUR[0].me()
-        return _XP[t.tid](w1)
+    ffi.def_extern(name="xp_cb", error=-1)(_pycb)
+    ffi.def_extern(name="xp_cb_oe", error=-1, onerror=_onerror)(_pycb)
 
 
-_CUR = [None]
 _BOUND = [2]
+
+
+def _first_diff(got, want):
+    for g, w in zip(got, want):
+        if g != w:
+            return str(w[0])
+    return "length"
 
 
 def work(item):
     progs = item
     viol = []
-    nexec = [0]
     logs = set()
+    W = _W
 
     expected = [model(p) for p in progs]
+    # the controller thread is a bystander: nothing the scheduled threads do may change ITS errno
+    W["ffi"].errno = BYSTANDER
 
     def on_exec(s):
-        nexec[0] += 1
         logs.add(tuple(tuple(r) for r in s.results))
         if s.deadlock or s.errors:
-            viol.append({"progs": progs, "choices": list(s.choices), "what": "deadlock-or-error",
+            viol.append({"family": "sched", "progs": progs, "choices": list(s.choices), "what": "deadlock-or-error",
                          "errors": s.errors})
             return True
         for i, (got, want) in enumerate(zip(s.results, expected)):
             if got != want:
-                viol.append({"progs": progs, "choices": list(s.choices), "thread": i, "got": got, "want": want})
+                viol.append({"family": "sched", "progs": progs, "choices": list(s.choices), "thread": i, "got": got,
+                             "want": want, "op": _first_diff(got, want)})
                 return len(viol) >= 2
+        mine = W["ffi"].errno
+        if mine != BYSTANDER:
+            viol.append({"family": "sched", "progs": progs, "choices": list(s.choices), "what": "bystander-errno-changed",
+                         "got": mine, "want": BYSTANDER})
+            return True
         return False
-    a = run_one_with_cur(progs, [])
-    b = run_one_with_cur(progs, [])
+    a = run_one(progs, [])
+    b = run_one(progs, [])
     if a.results != b.results or a.points != b.points:
         # state leaking from one execution into the next (e.g. an errno that is not per thread)
         # shows up here first: it is a violation if a run disagrees with the model, and only
@@ -266,48 +677,64 @@ def work(item):
         if a.points != b.points or (a.results == expected and b.results == expected):
             raise InfraError("non-deterministic replay for %r" % (progs,))
     total_ops = sum(len(p) for p in progs)
-    bound = None if (len(progs) == 2 and total_ops <= 3) else _BOUND[0]
-    st = sched.explore(lambda p: run_one_with_cur(progs, p), bound, on_exec=on_exec)
+    bound = None if (len(progs) == 2 and total_ops <= 3) else (1 if len(progs) >= 4 else _BOUND[0])
+    st = sched.explore(lambda p: run_one(progs, p), bound, on_exec=on_exec)
     return {"executions": st["executions"], "decisions": st["decisions"], "viol": viol, "distinct": len(logs)}
 
 
-def run_one_with_cur(progs, prefix):
-    # Sched is created inside run_one; the extern dispatcher needs it before threads start
-    orig = sched.Sched
-
-    class S2(orig):
-        def __init__(self, *a, **k):
-            orig.__init__(self, *a, **k)
-            _CUR[0] = self
-    sched.Sched = S2
-    try:
-        return run_one(progs, prefix)
-    finally:
-        sched.Sched = orig
+def work_chain(chain):
+    W = _W
+    W["ffi"].errno = BYSTANDER
+    got = run_chain(chain)
+    want = chain_expected(chain)
+    viol = []
+    for k, (g, w) in enumerate(zip(got, want)):
+        if g != w:
+            viol.append({"family": "chain", "chain": chain[:k + 1], "index": k, "got": g, "want": w,
+                         "op": _first_diff(g, w)})
+            break                                 # later programs started from a state the model does not know
+    mine = W["ffi"].errno
+    if mine != BYSTANDER and not viol:
+        viol.append({"family": "chain", "chain": chain, "index": len(chain) - 1, "what": "bystander-errno-changed",
+                     "got": mine, "want": BYSTANDER})
+    return {"executions": len(chain), "decisions": sum(len(p) for p in chain), "viol": viol,
+            "distinct": len(set(p for p in chain if nontrivial(p)))}
 
 
 def programs(tid, maxlen, alpha_idx=None):
     al = alphabet(tid)
-    if alpha_idx is not None:
-        al = [al[i] for i in alpha_idx]
+    if alpha_idx is None:
+        alpha_idx = range(N_OLD)
+    al = [al[i] for i in alpha_idx]
     out = []
     for n in range(1, maxlen + 1):
         out.extend(itertools.product(al, repeat=n))
     return out
 
 
-def work_block(block):
-    tot = {"executions": 0, "decisions": 0, "distinct": 0}
+def work_block(item):
+    fam, block = item
+    tot = {"executions": 0, "decisions": 0, "distinct": 0, "chain_programs": 0}
     viol = []
-    for progs in block:
-        r = work(progs)
-        for k in tot:
-            tot[k] += r[k]
-        viol.extend(r["viol"])
-        if len(viol) > 5:
-            break
+    saved = sys.stderr
+    sys.stderr = _DirtyErr()
+    try:
+        for x in block:
+            if fam == "chain":
+                r = work_chain(x)
+                tot["chain_programs"] += len(x)
+            else:
+                r = work(x)
+            for k in ("executions", "decisions", "distinct"):
+                tot[k] += r[k]
+            viol.extend(r["viol"])
+            if len(viol) > 5:
+                break
+    finally:
+        sys.stderr = saved
     tot["viol"] = viol
     tot["n"] = len(block)
+    tot["fam"] = fam
     return tot
 
 
@@ -324,11 +751,59 @@ def run(ctx):
         os.dup2(_saved2, 2)
 
 
-def _run(ctx):
-    _BOUND[0] = 2
-    # sequential sanity: every single op alone agrees with the model from a known start
-    items = []
-    if ctx.quick:
+# ---------------------------------------------------------------------------------------------
+# families
+# ---------------------------------------------------------------------------------------------
+def chain_families(quick):
+    """name -> list of single-thread programs (thread id 0 values)."""
+    fam = {}
+    al = alphabet(0)
+    b = 100
+    # (a) every operation alone and every ordered pair of operations of the full alphabet
+    extra = [("C", p, b + 70 + i, kind) for i, (p, kind) in enumerate(
+        (p, kind) for p in C_PATHS for kind in ("dirtyarg", "biglist"))]
+    extra += [("CBD", m, (("G",), ("S", b + 81))) for m in CB_MECHS]
+    extra += [("CBT", m, b + 82, (("G",), ("V",), ("S", b + 83))) for m in CB_MECHS]
+    full = al + [x for x in extra if x not in al]
+    fam["op-singles"] = [(x,) for x in full]
+    fam["op-pairs"] = list(itertools.product(full, repeat=2))
+    # (b) callback bodies: every body of length <= 2, for every mechanism, entered through the C helper /
+    #     directly / from a C-made thread  (the chains are cheap: the same in both tiers)
+    out = []
+    for mech in CB_MECHS:
+        for body in bodies(0, 2):
+            out.append((("CB", mech, b + 90, body),))
+            out.append((("CBD", mech, body),))
+            out.append((("CBT", mech, b + 91, body), ("G",)))
+    fam["callback-bodies"] = out
+    # three levels: helper -> callback -> helper -> extern -> helper -> in-line callback
+    deep = []
+    for inner in bodies(0, 1, nested=False):
+        deep.append((("CB", "callback", b + 92, (("G",), ("CB", "extern", b + 93, (
+            ("CB", "abi-callback", b + 94, inner), ("G",))))),))
+    fam["callback-depth3"] = deep
+    # (c) front end x front end x value; rejected values through every front end
+    out = []
+    for v in values(0):
+        for f1 in FRONT_ENDS:
+            for f2 in FRONT_ENDS:
+                out.append((("S", v, f1), ("D",), ("G", f2), ("C", "api", b + 95)))
+            for p in C_PATHS:
+                out.append((("S", v, f1), ("C", p, v), ("G", f1)))
+            out.append((("CB", "callback", v, (("G", f1), ("S", v, f1))), ("G", f1)))
+    for key in sorted(BAD):
+        for fe in FRONT_ENDS:
+            for v in values(0)[:5]:
+                out.append((("S", v), ("SX", key, fe), ("G", fe), ("C", "api", b + 96)))
+            out.append((("CB", "extern", b + 97, (("SX", key, fe), ("G",))),))
+    fam["front-ends-values"] = out
+    return fam
+
+
+def sched_families(quick):
+    """name -> list of program combinations run under the scheduler."""
+    fam = {}
+    if quick:
         A0 = [0, 1, 2, 7, 10, 11, 12]
         A1 = [1, 3, 8, 13, 14, 15]
         p0 = programs(0, 2, alpha_idx=A0)
@@ -336,7 +811,13 @@ def _run(ctx):
         pairs = [(a, b) for a in p0 for b in p1 if len(a) + len(b) <= 3]
         pairs += [(a, b) for a in programs(0, 1, [5, 6, 9]) for b in programs(1, 1, [5, 6, 9, 10])]
         pairs += [(a, b) for a in programs(0, 2, [0, 7]) for b in programs(1, 2, [1, 3]) if len(a) + len(b) == 4]
-        triples = [(a, b, c) for a in programs(0, 1, [0, 2, 7]) for b in programs(1, 1, [1, 3, 7]) for c in programs(2, 1, [0, 1, 7])]
+        triples = [(a, b, c) for a in programs(0, 1, [0, 2, 7]) for b in programs(1, 1, [1, 3, 7])
+                   for c in programs(2, 1, [0, 1, 7])]
+        # audit-round operations, one per thread
+        newpairs = [(a, b) for a in programs(0, 1, [17, 19, 22, 25, 27, 29, 31, 39])
+                    for b in programs(1, 1, [18, 20, 21, 24, 26, 28, 30, 32])]
+        # four threads: all call C through the API path, at most one of them through a callback
+        quads = [tuple(((alphabet(t)[7 if t == k else 2]),) for t in range(4)) for k in (None, 0, 1, 2, 3)]
     else:
         p0 = programs(0, 2)
         p1 = programs(1, 2)
@@ -344,46 +825,154 @@ def _run(ctx):
         pairs += [(a, b) for a in programs(0, 2, [0, 1, 2, 3, 7, 8, 10]) for b in programs(1, 2, [0, 1, 4, 5, 7, 9, 10])
                   if len(a) + len(b) == 4]
         triples = [(a, b, c) for a in programs(0, 1) for b in programs(1, 1) for c in programs(2, 1, [0, 1, 2, 7, 10])]
-    allp = pairs + triples
+        n = len(alphabet(0))
+        newpairs = [(a, b) for i, a in enumerate(programs(0, 1, range(n))) for j, b in enumerate(programs(1, 1, range(n)))
+                    if i >= N_OLD or j >= N_OLD]
+        S0 = [0, 2, 18, 22, 25, 27, 28, 29, 31, 39]
+        S1 = [1, 7, 17, 19, 21, 26, 28, 30, 32, 33]
+        newpairs += [(a, b) for a in programs(0, 2, S0) for b in programs(1, 2, S1) if len(a) + len(b) == 3]
+        q = [0, 1, 2, 7]
+        quads = [(a, b, c, d) for a in programs(0, 1, q) for b in programs(1, 1, q) for c in programs(2, 1, [2, 7])
+                 for d in programs(3, 1, [1, 7])]
+    fam["pairs"] = pairs
+    fam["triples"] = triples
+    fam["audit-pairs"] = newpairs
+    fam["quadruples"] = quads
+    return fam
+
+
+def _run(ctx):
+    _BOUND[0] = 2
+    sf = sched_families(ctx.quick)
+    cf = chain_families(ctx.quick)
+    only = getattr(ctx, "opts", {}).get("only")      # debugging aid: --opt only=chains | only=audit (a partial run)
+    if only in ("chains", "audit"):
+        sf["pairs"] = []
+        sf["triples"] = []
+        if only == "chains":
+            sf["audit-pairs"] = []
+            sf["quadruples"] = []
+    elif only == "old":
+        sf["audit-pairs"] = []
+        sf["quadruples"] = []
+        cf = {}
+    allp = [p for name in ("pairs", "triples", "audit-pairs", "quadruples") for p in sf[name]]
+    chains = []
+    CHAIN = 40
+    nchainprog = 0
+    for name in sorted(cf):
+        progs = cf[name]
+        nchainprog += len(progs)
+        ctx.count("chain:" + name, len(progs))
+        for c in pool.chunks(progs, CHAIN):
+            chains.append(tuple(c))
     # every thread starts from errno 0
-    ctx.log("%d program combinations (%d pairs, %d triples)" % (len(allp), len(pairs), len(triples)))
-    blocks = list(pool.chunks(allp, max(1, len(allp) // 128)))
-    tot_exec = tot_dec = distinct = 0
-    for block, r in pool.pmap(work_block, [[b] for b in blocks], contain_crashes=True, item_timeout=7200):
+    ctx.log("%d program combinations (%s); %d single-thread programs in %d chains" % (
+        len(allp), ", ".join("%d %s" % (len(sf[k]), k) for k in sf), nchainprog, len(chains)))
+    blocks = []
+    for name in ("pairs", "triples", "audit-pairs", "quadruples"):
+        per = max(1, len(allp) // 128) if name != "quadruples" else max(1, len(sf[name]) // 32)
+        blocks += [("sched:" + name, b) for b in pool.chunks(sf[name], per)]
+    cblocks = [("chain", b) for b in pool.chunks(chains, max(1, len(chains) // 32))]
+    # spread the (cheap) chain blocks among the scheduler blocks
+    step = max(1, len(blocks) // max(1, len(cblocks)))
+    mixed = []
+    for i, b in enumerate(blocks):
+        mixed.append(b)
+        if i % step == 0 and cblocks:
+            mixed.append(cblocks.pop())
+    mixed.extend(cblocks)
+    tot_exec = tot_dec = distinct = chain_exec = 0
+    for block, r in pool.pmap(work_block, [[b] for b in mixed], contain_crashes=True, item_timeout=7200):
         if isinstance(r, pool.WorkerError):
             raise InfraError(r.tb)
         if isinstance(r, pool.Crash):
-            ctx.violation({"kind": "crash"}, {"block": "a block of programs", "how": r.describe()})
+            ctx.violation({"kind": "crash", "family": block[0]},
+                          {"family": block[0], "block": "a block of programs", "how": r.describe()})
             continue
         tot_exec += r["executions"]
         tot_dec += r["decisions"]
         distinct += r["distinct"]
+        if r["fam"] == "chain":
+            chain_exec += r["executions"]
+        ctx.count("executions:" + r["fam"], r["executions"])
         for v in r["viol"]:
-            ctx.violation({"kind": "thread-observed-foreign-or-wrong-errno" if "thread" in v else v["what"]}, v)
+            kind = v["what"] if "what" in v else "thread-observed-foreign-or-wrong-errno"
+            # family: 'sched' / 'chain'; op: kind of the first observation that differs from the model
+            ctx.violation({"kind": kind, "family": v["family"], "op": v.get("op")}, v)
     for p in allp[:: max(1, len(allp) // 6)]:
         ctx.sample({"programs": p})
-    ctx.count("pairs", len(pairs))
-    ctx.count("triples", len(triples))
+    for c in chains[:: max(1, len(chains) // 4)]:
+        ctx.sample({"chain-program": c[0]})
+    for k in sf:
+        ctx.count(k, len(sf[k]))
+    for p in allp:
+        for t in p:
+            for op in t:
+                ctx.count("sched-op:" + op[0])
     cov = {
         "states": tot_dec, "transitions": tot_dec, "traces_validated_against_impl": tot_exec,
-        "schedules": tot_exec, "evaluations": tot_exec, "distinct_nontrivial": distinct,
-        "rule": "one evaluation = one complete interleaving of one combination of thread programs; all interleavings at "
-                "operation and in-callback granularity are run for every combination; distinct_nontrivial = distinct "
-                "result tuples summed over combinations",
+        "schedules": tot_exec - chain_exec, "evaluations": tot_exec, "distinct_nontrivial": distinct,
+        "rule": "one evaluation = one complete interleaving of one combination of thread programs, or one single-thread "
+                "program of a chain (chain families: every operation alone and in ordered pairs, every callback body "
+                "of length <= 2 x mechanism x {helper, direct call, C-created thread}, three-level nested callbacks, "
+                "front end x front end x value and rejected values); all interleavings at operation and in-callback "
+                "granularity are run for every combination (pairs, triples, audit-pairs = the audit-round operations, "
+                "quadruples = 4 threads); distinct_nontrivial = distinct result tuples summed over combinations plus "
+                "distinct programs per chain",
         "program_combinations": len(allp),
+        "chain_programs": nchainprog,
         "preemption_bound": "none (all schedules) for two threads with <= 3 operations in total; %d preemptions for "
-                            "longer pairs and for three threads" % _BOUND[0],
+                            "longer pairs and for three threads; 1 preemption for four threads" % _BOUND[0],
         "exhaustive": True,
     }
-    return ctx.finish(cov, ["real OS threads under a baton scheduler; switch points = operation boundaries and callback bodies"])
+    if only:
+        cov["partial_run"] = "only=" + only
+    return ctx.finish(cov, ["real OS threads under a baton scheduler; switch points = operation boundaries and callback "
+                            "bodies; a callback body run in a C-created thread is atomic for the scheduler"])
+
+
+def _tup(x):
+    if isinstance(x, (list, tuple)):
+        return tuple(_tup(v) for v in x)
+    return x
 
 
 def replay(detail):
     setup()
     install_extern()
-    progs = tuple(tuple(tuple(op) for op in p) for p in detail["progs"])
-    s = run_one_with_cur(progs, detail["choices"])
+    saved = sys.stderr
     bad = 0
+    if detail.get("family") == "chain":
+        chain = _tup(detail["chain"])
+        sys.stderr = _DirtyErr()
+        try:
+            _W["ffi"].errno = BYSTANDER
+            got = run_chain(chain)
+            mine = _W["ffi"].errno
+        finally:
+            sys.stderr = saved
+        want = chain_expected(chain)
+        for k, p in enumerate(chain):
+            if got[k] != want[k] or k == len(chain) - 1:
+                print("program", k, "of the chain:", p)
+                print("   got ", got[k])
+                print("   want", want[k])
+            if got[k] != want[k]:
+                bad = 1
+                break
+        if mine != BYSTANDER:
+            print("bystander thread: errno", mine, "want", BYSTANDER)
+            bad = 1
+        return bad
+    progs = _tup(detail["progs"])
+    sys.stderr = _DirtyErr()
+    try:
+        _W["ffi"].errno = BYSTANDER
+        s = run_one(progs, detail["choices"])
+        mine = _W["ffi"].errno
+    finally:
+        sys.stderr = saved
     for i, p in enumerate(progs):
         want = model(p)
         print("thread", i, "program", p)
@@ -391,4 +980,10 @@ def replay(detail):
         print("   want", want)
         if s.results[i] != want:
             bad = 1
+    if mine != BYSTANDER:
+        print("bystander thread: errno", mine, "want", BYSTANDER)
+        bad = 1
+    if s.deadlock or s.errors:
+        print("deadlock" if s.deadlock else "errors", s.errors)
+        bad = 1
     return bad
